@@ -40,4 +40,4 @@ Definition proj_res (r : outcome (list fit)) : ores :=
   match r with Ok l => OFits (map proj_fit l) | Err e => OErr e | Panic _ => OPanic | OutOfFuel => OErr 98 end.
 
 Definition check_case (c : bool * bool * bytes * ores) : bool :=
-  let '(cs, ex, bs, obs) := c in ores_eqb (proj_res (decode_stream (mkcfg cs ex) bs)) obs.
+  let '(cs, ex, bs, obs) := c in ores_eqb (proj_res (decode_stream (mkcfg cs ex 4096) bs)) obs.
